@@ -313,9 +313,15 @@ class Impl:
             stored = [(float(p.x), float(p.y)) for p in v.vertices]
             c = v.cross_section_centroid
             kids = list(v.children)
+            if not all_finite(stored, float(v.cross_sectional_area), float(c.x), float(c.y), float(v.volume)):
+                raise ImplError({"claim": "area, centroid and volume of a simple polygon are finite numbers", "polygon": pts,
+                                 "area": float(v.cross_sectional_area), "centroid": (float(c.x), float(c.y)),
+                                 "volume": float(v.volume)})
             return v, {"stored": stored, "area": float(v.cross_sectional_area), "cx": float(c.x), "cy": float(c.y),
                        "volume": float(v.volume),
                        "rect_path": (len(kids) == 1 and type(kids[0]).__name__ == "Subtract") if primitive_type == "csg" else None}
+        except ImplError:
+            raise
         except (ZeroDivisionError, ValueError, TypeError, RuntimeError, IndexError) as e:
             # an exception on a simple polygon of non-zero area is a finding, reported by the caller
             raise ImplError({"claim": "a voxel built from a simple polygon reports its area, centroid and volume "
@@ -586,6 +592,9 @@ def search_forms_and_histories(impl, pts, rng):
                 "polygon": pts})
     v = impl.Voxel(pts)
     r0 = report(v)
+    if r0[2] == "ZeroDivisionError" and exact_reference(pts)[0] != 0:
+        return [{"claim": "a voxel of non-zero area reports a centroid (the implementation raised ZeroDivisionError)",
+                 "polygon": pts, "exact_area": float(exact_reference(pts)[0])}]
     arr = np.array(pts, dtype=np.float64)
     ro = arr.copy()
     ro.setflags(write=False)
@@ -778,6 +787,9 @@ def search_grid(impl, polys):
         return None, [{"claim": "a grid of simple polygons reports its total volume (the implementation raised %s)"
                                 % type(e).__name__, "polygons": polys, "exception": repr(e)}]
     fails = []
+    if not all_finite([float(x) for x in vols], float(tot)):
+        return None, [{"claim": "voxel volumes and the total volume of a grid are finite numbers", "polygons": polys,
+                       "total": float(tot)}]
     if len(vols) != len(polys):
         fails.append({"claim": "grid has one voxel per polygon", "polygons": len(polys), "voxels": len(vols)})
     if abs(tot - math.fsum(vols)) > 1e-12 * (math.fsum(abs(x) for x in vols) + 1e-300) and polys:
@@ -794,6 +806,31 @@ def search_grid(impl, polys):
 
 
 # ---------------------------------------------------------------------------------------------
+def all_finite(*xs):
+    def flat(x):
+        if isinstance(x, (list, tuple)):
+            for y in x:
+                yield from flat(y)
+        else:
+            yield x
+    return all(math.isfinite(v) for v in flat(xs))
+
+
+IMPL_EXC = (ZeroDivisionError, ValueError, TypeError, RuntimeError, IndexError, AttributeError, OverflowError)
+
+
+def guarded(fn, what, replay, *args):
+    """run one search on one case; an exception of the implementation on a valid input is a recorded outcome (the
+    model says: a value), returned as a failure with the input as replay -- the run continues"""
+    try:
+        return fn(*args)
+    except ImplError as e:
+        return [e.args[0]]
+    except IMPL_EXC as e:
+        return [dict(replay, claim="%s returns values on a valid input (the implementation raised %s: %s)"
+                                   % (what, type(e).__name__, str(e)[:120]))]
+
+
 def load_extra_polygons(ctx):
     out = []
     files = sorted(glob.glob(os.path.join(VERIF, "corpus", "C17", "*.json")))
@@ -880,15 +917,32 @@ def run(ctx):
         exact = (i % 4 != 3)
         polys.append((cls, exact, gen_polygon(rng, cls, exact)))
     # the same shapes at very small / very large magnitudes (power-of-two scaling is exact in binary floating point)
-    scale_exps = [-300, -120, -40, -8, 8, 40, 120, 300]
+    scale_exps = [-300, -120, -40, -27, -20, -17, -10, -8, 8, 10, 17, 40, 120, 300]
     scaled_from = {}
     base_exact = [p for p in polys if p[1] and p[0] not in ("corpus", "bigstar")]
-    for i in range(8 if quick else 160):
+    for i in range(14 if quick else 168):
         cls0, _, base = base_exact[(i * 7) % len(base_exact)]
         k = scale_exps[i % len(scale_exps)]
         sc = [(math.ldexp(x, k), math.ldexp(y, k)) for x, y in base]
         polys.append(("scaled", True, sc))
         scaled_from[id(sc)] = (base, k)
+    # physical scales: cells of size 1e-6 .. 1e3 m at major radius 1e-3 .. 1e3 m (decimal, full doubles)
+    phys_sizes = [1e-6, 1e-5, 5e-5, 1e-4, 1e-3, 1e-2, 1e-1, 1.0, 10.0, 100.0, 1e3]
+    phys_radii = [1e-3, 1e-2, 0.1, 1.0, 10.0, 100.0, 1e3]
+    phys_hist = {}
+    for i in range(11 if quick else 220):
+        _, _, base = base_exact[(i * 11 + 3) % len(base_exact)]
+        sz = phys_sizes[i % len(phys_sizes)]
+        cand = [R for R in phys_radii if 1e-5 <= sz / R <= 10.0]
+        R = cand[(i // len(phys_sizes) + i) % len(cand)]
+        x0, y0 = min(x for x, _ in base), min(y for _, y in base)
+        ext = max(max(x for x, _ in base) - x0, max(y for _, y in base) - y0)
+        z0 = [0.0, R, -R][i % 3]
+        ph = [(R + sz * (x - x0) / ext, z0 + sz * (y - y0) / ext) for x, y in base]
+        if not is_simple(ph, allow_collinear=True):
+            continue
+        polys.append(("physical", False, ph))
+        phys_hist["size %g at R %g" % (sz, R)] = phys_hist.get("size %g at R %g" % (sz, R), 0) + 1
 
     cases, meta = [], []
     dist = {"class": {}, "n_vertices": {}, "orientation_given": {"clockwise": 0, "anticlockwise": 0},
@@ -1020,7 +1074,11 @@ def run(ctx):
     # ---- grid_samples = 0 / negative; __getitem__ / set_active argument policy ------------------------------------
     n_policy = 0
     for pts in valid_small[:2]:
-        vv, g0 = impl.geom(pts)
+        try:
+            vv, g0 = impl.geom(pts)
+        except ImplError as e:
+            impl_errors.append(e.args[0])
+            continue
         trs = impl.triangles(g0["stored"])
         for n in (0, -1, -7):
             try:
@@ -1075,6 +1133,10 @@ def run(ctx):
             total_u += n * (3 if len(trs) > 1 else 2)
         impl.seed(rseed)
         stream = [impl.uniform() for _ in range(total_u)]
+        if not all_finite(vals, spts):
+            impl_errors.append({"claim": "emissivities_from_function samples finite points and returns finite means",
+                                "polygons": gp, "grid_samples": n, "raysect_seed": rseed, "values": vals})
+            continue
         if len(spts) != n * size:
             impl_errors.append({"claim": "emissivities_from_function evaluates the function grid_samples times per voxel",
                                 "polygons": gp, "grid_samples": n, "evaluations": len(spts)})
@@ -1106,7 +1168,17 @@ def run(ctx):
         n = rng.choice([1, 2, 5, 10, 10])
         coeffs = (dyadic(rng, -2, 2, 3), dyadic(rng, -2, 2, 3), dyadic(rng, -2, 2, 3))
         rseed = rng.randint(1, 2 ** 62)
-        val, spts, draws = impl.emissivity(v, len(tris), rseed, n, coeffs)
+        try:
+            val, spts, draws = impl.emissivity(v, len(tris), rseed, n, coeffs)
+        except IMPL_EXC as e:
+            impl_errors.append({"claim": "emissivity_from_function returns a value on a valid voxel (the implementation raised %s)"
+                                         % type(e).__name__, "polygon": pts, "raysect_seed": rseed, "grid_samples": n})
+            continue
+        if not all_finite(val, spts):
+            impl_errors.append({"claim": "emissivity_from_function samples finite points and returns a finite mean",
+                                "polygon": pts, "raysect_seed": rseed, "grid_samples": n, "coeffs": coeffs, "value": val,
+                                "points": spts[:5]})
+            continue
         n_draws += len(draws)
         tbl = "[" + "; ".join("(%s, %s)" % (qlit(d[1]), qlit(math.sqrt(d[1]))) for d in draws) + "]"
         dr = "[" + "; ".join("{| u_sel := %s; u_one := %s; u_two := %s |}" % (qlit(d[0]), qlit(d[1]), qlit(d[2]))
@@ -1122,6 +1194,20 @@ def run(ctx):
     grid_fails = []
     exact_polys = [p[2] for p in polys if p[1] and p[0] != "scaled"]
     exact_quads = [p[2] for p in polys if p[1] and p[0] == "quad"]
+    for gi, (cell, R, nn) in enumerate([(5e-5, 1.0, 5), (1e-6, 0.25, 3), (1e3, 1e3, 2)] + ([] if quick else [(1e-4, 2.0, 12), (1e-5, 0.5, 8)])):
+        fine = [[(R + i * cell, j * cell), (R + (i + 1) * cell, j * cell), (R + (i + 1) * cell, (j + 1) * cell),
+                 (R + i * cell, (j + 1) * cell)] for i in range(nn) for j in range(nn)]
+        tot, gf = search_grid(impl, fine)
+        grid_fails += gf
+        grid_sizes.append("%dx%d cells of %g at R=%g" % (nn, nn, cell, R))
+        if tot is None:
+            continue
+        want = math.pi * ((R + nn * cell) ** 2 - R ** 2) * nn * cell
+        if abs(tot - want) > 1e-6 * want:
+            grid_fails.append({"claim": "a fine rectilinear grid's total volume is the volume of the annulus it tiles",
+                               "polygons": fine[:4], "cells": nn * nn, "cell_size": cell, "R": R, "got": tot, "want": want})
+        cases.append("check_total %s [%s] %s" % (qlit(PI), "; ".join(ptlist(p) for p in fine), qlit(tot)))
+        meta.append({"kind": "grid", "size": nn * nn, "polygons": fine, "total_volume": tot})
     for gi in range(n_grids):
         size = [0, 1, 2, 7, 25, 60, 3, 12][gi % 8] if quick else rng.choice([0, 1, 2, 5, 20, 100, 300])
         gp = []
@@ -1173,11 +1259,11 @@ def run(ctx):
     n_search_geom = 0
     allvar_set = {id(p[2]) for p in allvar}
     for pts in seeds[:10]:
-        search_fails += search_geometry(impl, pts, True)
+        search_fails += guarded(search_geometry, "area / centroid / volume", {"polygon": pts}, impl, pts, True)
         n_search_geom += 1
     for k, (cls, exact, pts) in enumerate(polys):
-        search_fails += search_geometry(impl, pts, len(pts) == 4 or id(pts) in allvar_set
-                                        or k % (5 if quick else 10) == 0)
+        search_fails += guarded(search_geometry, "area / centroid / volume", {"polygon": pts}, impl, pts,
+                                len(pts) == 4 or id(pts) in allvar_set or k % (5 if quick else 10) == 0)
         n_search_geom += 1
         if len(search_fails) > 20:
             break
@@ -1186,7 +1272,7 @@ def run(ctx):
     for cls, exact, pts in polys:
         if cls == "scaled" and len(search_fails) <= 20:
             base, k = scaled_from[id(pts)]
-            search_fails += search_scale(impl, base, k)
+            search_fails += guarded(search_scale, "area / centroid / volume of a scaled polygon", {"polygon": base, "scale_exponent": k}, impl, base, k)
             n_scale += 1
     int_polys = []
     for cls, exact, pts in polys:
@@ -1199,7 +1285,8 @@ def run(ctx):
         if len(search_fails) > 20:
             break
         vs = variants(pts)
-        search_fails += search_forms_and_histories(impl, vs[rng.randrange(len(vs))], rng)
+        pv = vs[rng.randrange(len(vs))]
+        search_fails += guarded(search_forms_and_histories, "a voxel driven through argument forms and a history", {"polygon": pv}, impl, pv, rng)
         n_forms += 1
     for gi in range(5 if quick else 40):
         if len(search_fails) > 20:
@@ -1210,12 +1297,12 @@ def run(ctx):
         for _ in range(size):
             vs = variants(pool[rng.randrange(len(pool))])
             gp.append(vs[rng.randrange(len(vs))])
-        search_fails += search_grid_history(impl, gp, rng)
+        search_fails += guarded(search_grid_history, "a grid driven through forms, orders and a history", {"polygons": gp}, impl, gp, rng)
         n_grid_hist += 1
     stat_pool = seeds[:5] + [p[2] for p in polys if p[0] in ("star", "quad", "template", "axis", "convex", "triangle")][:n_stat]
     n_search_stat = 0
     for pts in stat_pool:
-        search_fails += search_sampling(impl, pts, rng, 4000 if quick else 20000)
+        search_fails += guarded(search_sampling, "emissivity_from_function", {"polygon": pts}, impl, pts, rng, 4000 if quick else 20000)
         n_search_stat += 1
         if len(search_fails) > 20:
             break
@@ -1235,7 +1322,8 @@ def run(ctx):
         for gs in ([1, 3, 10], [2, 4, 10], [1, 5, 10])[k % 3] if quick else (1, 2, 3, 4, 5, 10):
             if len(search_fails) > 20:
                 break
-            search_fails += search_expectation(impl, vs[rng.randrange(len(vs))], rng, gs, n_calls)
+            pe = vs[rng.randrange(len(vs))]
+            search_fails += guarded(search_expectation, "emissivity_from_function (repeated calls)", {"polygon": pe, "grid_samples": gs}, impl, pe, rng, gs, n_calls)
             exp_counts[gs] = exp_counts.get(gs, 0) + 1
     for m in meta:
         if m["kind"] == "error":
@@ -1279,7 +1367,7 @@ def run(ctx):
                              search_sampling_polygons=n_search_stat,
                              search_samples_per_polygon=4000 if quick else 20000,
                              expectation_tests_by_grid_samples=exp_counts, expectation_calls_per_test=n_calls,
-                             scale_exponents=scale_exps, scale_covariance_tests=n_scale, zero_area_cases=n_degenerate,
+                             scale_exponents=scale_exps, physical_scale_cells=phys_hist, scale_covariance_tests=n_scale, zero_area_cases=n_degenerate,
                              argument_form_and_history_polygons=n_forms, grid_history_grids=n_grid_hist,
                              constructor_raw_row_cases=n_construct, policy_cases=n_policy,
                              emissivities_from_function_grids=n_emis_grid, source_constants=consts),
@@ -1293,7 +1381,9 @@ def run(ctx):
                       "centroid": "2^-48 * n * (num_scale / (3|S|) + |c| * area_scale / |S|) + 2^-50 |c|",
                       "volume": "2 pi (tol_cx * area + |cx| tol_area) + 2^-50 |V|",
                       "sample point": "2^-40 * max|coordinate|; lookup margin 2^-40 * area (else ambiguous)",
-                      "emissivity mean": "2^-38 * (|c0| + (|c1|+|c2|) max|coordinate|)", "grid total": "2^-40 relative",
+                      "emissivity mean": "2^-38 * (|c0| + (|c1|+|c2|) max|coordinate|)",
+                      "grid total": "sum of the per-voxel volume budgets + 2^-44 relative (was 2^-40 relative; measured: 5x5 cells of "
+                                    "50 um at R = 1 m have a conditioning of 1e-11 in the area alone, above 2^-40)",
                       "statistical (search only)": "5 sigma (large-sample mean and hit counts); expectation for small "
                                                    "grid_samples: 5.5 sigma of the empirical standard error over independent "
                                                    "calls, triangle frequencies 6 sigma + 3"},
